@@ -76,9 +76,11 @@ Print Assumptions lock_sets_disjoint.
 Example skeleton_pinned :
   sync_inventory = expected_sync_inventory /\
   map fname shared_now = expected_shared /\
-  shapes_eqb shape_table expected_shapes = true.
+  shapes_eqb shape_table expected_shapes = true /\
+  flag_sites = expected_flag_sites.
 Proof. exact (conj (strs_eqb_eq _ _ (proj1 skeleton_check))
-             (conj (strs_eqb_eq _ _ (proj1 (proj2 skeleton_check))) (proj2 (proj2 skeleton_check)))). Qed.
+             (conj (strs_eqb_eq _ _ (proj1 (proj2 skeleton_check)))
+             (conj (proj1 (proj2 (proj2 skeleton_check))) (strs_eqb_eq _ _ (proj2 (proj2 (proj2 skeleton_check))))))). Qed.
 Print Assumptions skeleton_pinned.
 
 Theorem readers_and_writers_meet_only_on_pinned_fields : forall k,
@@ -87,6 +89,17 @@ Theorem readers_and_writers_meet_only_on_pinned_fields : forall k,
   In (fname k) expected_shared.
 Proof. exact shared_state_is_pinned. Qed.
 Print Assumptions readers_and_writers_meet_only_on_pinned_fields.
+
+(* the writer mutex is touched only by write transactions: in the whole graph Router.mu is acquired only
+   by txnWith in a state where its `write` argument is not false, and released only by Txn.Commit /
+   Txn.Abort in a state where the transaction's `write` field is not false; together with
+   skeleton_pinned (Txn.write gets a value only in txnWith — its own `write` argument — and in Snapshot —
+   false) the lock is released only by a transaction that took it *)
+Theorem writer_lock_touched_only_by_write_transactions : forall s l, In l (leaves_at graph s) ->
+  (l = Acquire lock_Router_mu -> fst s = f_Router_txnWith /\ nth 0 (snd s) None <> Some false) /\
+  (l = Release lock_Router_mu -> (fst s = f_Txn_Commit \/ fst s = f_Txn_Abort) /\ nth 0 (snd s) None <> Some false).
+Proof. exact writer_lock_discipline. Qed.
+Print Assumptions writer_lock_touched_only_by_write_transactions.
 
 (* non-vacuity: the graph sees the writer lock; the guards are what separates Txn(false) from Txn(true) *)
 Theorem writers_take_writer_lock : forall e, In e locking_write_entries ->
